@@ -119,6 +119,9 @@ ContractCases == {
   CCase("dense", <<"a", "c", "b">>, <<"b", "d">>, <<"a", "c", "d">>, <<>>, <<>>),
   CCase("dg", <<"a", "b", "c">>, <<"c", "d", "f">>, <<"a", "b", "d", "f">>, <<-1>>, <<>>),          \* features (d, f)
   CCase("dg", <<"a", "b", "c">>, <<"b", "c", "d">>, <<"a", "d">>, <<1, 2>>, <<>>),
+  CCase("dg", <<"a", "b", "c">>, <<"b", "c", "d">>, <<"a", "d">>, <<2, 1>>, <<>>),        \* axes listed in another order: same contraction
+  CCase("dg", <<"a", "b", "c">>, <<"b", "c", "d">>, <<"a", "d">>, <<-1, 1>>, <<>>),
+  CCase("dg", <<"a", "b", "c">>, <<"a", "c", "d">>, <<"b", "d">>, <<-1, -3>>, <<>>),
   CCase("dg", <<"a", "b", "c">>, <<"b", "d">>, <<"a", "c", "d">>, <<-2>>, <<>>),
   CCase("dg", <<"a", "b", "c">>, <<"a", "c", "d">>, <<"a", "b", "d">>, <<2>>, <<0>>),               \* batch_dims = (0,)
   CCase("dg", <<"a", "b", "c">>, <<"a", "b", "d">>, <<"a", "c", "d">>, <<1>>, <<0>>)}
